@@ -181,7 +181,7 @@ func runR18_6(c *kit.Ctx) {
 			return in
 		}}).Solve()
 		c.Check(len(fresh.FailingReturns()) == 0, "R18.6", k.key(fn, "indexes re-assigned after sort"), fn.Pos(),
-			"every path from a re-ordering of AddrList.peerByTime to a return re-assigns peerAddr.index of all entries", "AddrList.peerByTime is re-ordered and a return is reachable without re-assigning peerAddr.index: Pop/replace use the stale index, the time-ordered slice and the priority tree diverge (wrong address evicted or dialled twice, panic "not in sync")")
+			"every path from a re-ordering of AddrList.peerByTime to a return re-assigns peerAddr.index of all entries", "AddrList.peerByTime is re-ordered and a return is reachable without re-assigning peerAddr.index: Pop/replace use the stale index, the time-ordered slice and the priority tree diverge (wrong address evicted or dialled twice, panic 'not in sync')")
 	}
 	c.Floor("R18.6", "re-orderings of AddrList.peerByTime", nSort, 1)
 	_ = types.Typ
